@@ -18,7 +18,8 @@ AUXD = dict(AUX)
 # literal, a regex that matches the empty string but can still fail, an end anchor
 MORE_LEAVES = [('ref', 'K'), ('ref', 'Z'), ('ref', 'W'),
                ('where', ('re', '[ab]'), ('py', "lambda x: x == 'a'")),
-               ('re', '(?!b)a*'), ('re', '$')]
+               ('re', '(?!b)a*'), ('re', '$'),
+               ('re', 'a')]       # (the same pattern text as the case-insensitive literal "a"i)
 EXTRA_STARTS = [
     ('rule', None, ('ref', 'K')), ('rule', None, ('ref', 'Z')), ('rule', None, ('ref', 'W')),
     ('rule', None, ('star', ('ref', 'K'))), ('rule', None, ('seq', ('expect', ('ref', 'K')), ('ref', 'K'))),
